@@ -4,6 +4,8 @@ Parts
   u1        the whole depth-1 universe (1261 types): both relation matrices in one request; every ordered pair compared
             with the reference relations, every ordered triple checked for transitivity by boolean matrix product,
             the other laws of the statement checked on the SUT's own matrices.          (exhaustive, both tiers)
+  slice2    three fixed and some seeded bases of eight types of depth <= 1: the base plus EVERY constructor application over
+            it (about 690 types of depth <= 2 each), all pairs and triples, same judge.
   universe2 generated sub-universes of depth <= 2 (families of related types, closed under components): same judge.
   coerce    (target type, value) through FeelType::coerced: statement oracle, conforms-or-null, idempotence.
   invoke    the same through a FEEL invocation `(function(p: T) p)(v)` (parameter coercion in builders.rs).
@@ -333,6 +335,61 @@ def judge_u1(ctx, case, resp):
     ctx.extra["u1_equivalent_pairs"] = int(E.sum())
     ctx.extra["u1_transitivity_premises"] = int((C.astype(np.float32) @ C.astype(np.float32)).sum())
     ctx.note(key="u1", nontrivial=True, labels=["u1"], sample={"universe": "U1", "types": n, "conformant_pairs": int(C.sum())})
+    return pick(ctx, problems)
+
+
+# ---- part slice2: a base of eight depth<=1 types and EVERYTHING one constructor application above it ----------
+
+def T(text):
+    return R.parse_shown(text)
+
+
+FIXED_BASES = [
+    ["Any", "Null", "number", "string", "list<number>", "list<Any>", "function<>->number", "function<>->string"],
+    ["Any", "Null", "number", "context<>", "context<a: number>", "context<a: Any>", "context<a: number, b: string>", "range<number>"],
+    ["Any", "Null", "boolean", "function<number>->string", "function<Any>->Null", "function<number, number>->number", "list<Null>",
+     "range<Any>"],
+]
+
+
+def slice_cases(ctx):
+    for b in FIXED_BASES:
+        yield {"base": b}
+    rnd = ctx.rng("slice2")
+    u1 = u1_types()
+    compound = [t for t in u1 if R.kind(t) != "simple"]
+    for _ in range(ctx.scale(1, 6 * 14)):
+        picked = rnd.sample(compound, 4) + rnd.sample(R.SIMPLE[2:], 2)
+        yield {"base": ["Any", "Null"] + [R.show(t) for t in picked]}
+
+
+def slice_types(case):
+    base = [T(x) for x in case["base"]]
+    out = []
+    for t in base + R.constructors_over(base):
+        if t not in out:
+            out.append(t)
+    return out
+
+
+def reqs_slice(case):
+    return [{"op": "typematrix", "types": [R.to_driver(t) for t in slice_types(case)]}]
+
+
+def judge_slice(ctx, case, resp):
+    types = slice_types(case)
+    out = judge_matrices(ctx, types, resp[0], "all constructors over the base {%s}" % "; ".join(case["base"]))
+    if isinstance(out, list):
+        return Fail(out[0][0], out[0][1])
+    problems, (E, C, RE, RC) = out
+    n = len(types)
+    ctx.count(n * n - 1)
+    ctx.classes["slice2/types"] += n
+    ctx.classes["slice2/pairs"] += n * n
+    ctx.classes["slice2/triples"] += n * n * n
+    ctx.classes["slice2/conformant-pairs"] += int(C.sum())
+    ctx.note(key=canon(case["base"]), nontrivial=True, labels=["slice2"],
+             sample={"base": case["base"], "types": n, "conformant_pairs": int(C.sum())})
     return pick(ctx, problems)
 
 
@@ -723,7 +780,8 @@ def setup(ctx):
                 "a, b) / function (0..2 parameters): ALL ordered pairs compared with reference relations written from the statement, "
                 "ALL ordered triples checked for transitivity by boolean matrix product on the SUT's matrices, plus reflexivity, Any top, "
                 "Null bottom, equivalence laws, result-type law and one-level variance laws on the SUT's own answers (counted in "
-                "enumerations and in u1_* fields, one note). universe2: generated families of related depth<=2 types closed under "
+                "enumerations and in u1_* fields, one note). slice2: the same for every type one constructor application above a base of 8 "
+                "types of depth<=1 (3 fixed bases + seeded ones). universe2: generated families of related depth<=2 types closed under "
                 "components (a type, rewrites with Null/Any/fresh subterms, added/dropped entries and parameters), same judge; "
                 "non-trivial: contains depth-2 types and more conformant non-identical pairs than types. coerce/invoke: (target, value) with "
                 "the target derived from the value's type (same, generalised, list of it, its item type, rewritten) or the value from the "
@@ -734,6 +792,7 @@ def setup(ctx):
                        "context conformance includes width (a context type conforms to one with fewer entries), DMN 1.3 10.3.2.9.2",
                        "numpy float32 matrix product counts paths exactly below 2^24"]
     ctx.p_u1 = ctx.register(Part("u1", None, reqs_u1, judge_u1))
+    ctx.p_slice = ctx.register(Part("slice2", None, reqs_slice, judge_slice))
     ctx.p_universe = ctx.register(Part("universe2", gen_universe, reqs_universe, judge_universe))
     ctx.p_coerce = ctx.register(Part("coerce", gen_coerce, reqs_coerce, judge_coerce))
     ctx.p_invoke = ctx.register(Part("invoke", gen_invoke, reqs_invoke, judge_invoke))
@@ -750,6 +809,9 @@ def run(ctx):
         if not ctx.stop():
             ctx.enumeration("U1 ordered pairs, both relations, against the reference", n * n, True)
             ctx.enumeration("U1 ordered triples, transitivity of both relations (boolean matrix product)", n * n * n, True)
+    if ctx.stop():
+        return
+    ctx.enumerate(ctx.p_slice, slice_cases(ctx), batch=1, name="depth-2 slices: all pairs and triples of every constructor over an 8-type base")
     if ctx.stop():
         return
     ctx.forall(ctx.p_universe, ctx.scale(3000, 400000), batch=100)
